@@ -1,6 +1,7 @@
 import AmrK.TasteProofs
 import AmrK.TasteComplete
 import AmrK.TasteLevelSound
+import AmrK.TastePltSound
 /-! # C04 — taste rejects missing, truncated, shifted or inconsistent plotfile data
 
 Soundness of the validator's byte walk: acceptance implies a *declarative* layout of the file, so
@@ -36,6 +37,29 @@ theorem accepted_level_is_chain (cellH : Bytes) (nf : Nat) (files : List (String
         (NoDegenerate raw → sortByOffset (entries.filter (·.file == n)) ≠ [] →
           Layout nf raw (sortByOffset (entries.filter (·.file == n)))) :=
   accepted_level_layout cellH nf files h
+
+/-- **whole plotfile**: if default validation reports good then the global header parses and, in every
+    validated level, the directory and level header exist, the level header parses, every binary file it
+    names is present, passes the header check, and is a chain header line · payload of the announced
+    size · canonical next header · … ending exactly at its end (entries in offset order).  Every listed
+    fault negates one conjunct. -/
+theorem good_plotfile_layout (header : Bytes) (limit : Option Int) (dirs : List (String × LevelDir))
+    (h : (tastePlt header limit dirs true true).1 = true) :
+    ∃ m, Header.parse header limit = .ok m ∧
+      ∀ p ∈ m.cellPaths, ∃ d c entries, dirs.lookup (String.fromUTF8! ⟨p.toArray⟩) = some d ∧ d.cellH = some c ∧
+        parseCellH c m.fields.length = .ok entries ∧
+        ∀ n ∈ dedup (entries.map (·.file)), ∃ raw, d.files.lookup n = some raw ∧
+          headersOK raw m.fields.length (sortByOffset (entries.filter (·.file == n))) = true ∧
+          (NoDegenerate raw → sortByOffset (entries.filter (·.file == n)) ≠ [] →
+            Layout m.fields.length raw (sortByOffset (entries.filter (·.file == n)))) :=
+  Taste.good_plotfile_layout header limit dirs h
+
+/-- a validated level whose directory is missing is never reported good, whatever the options -/
+theorem missing_level_rejected (header : Bytes) (limit : Option Int) (dirs : List (String × LevelDir)) (cH cS : Bool)
+    (m : Header.Meta) (hm : Header.parse header limit = .ok m) (p : Bytes) (hp : p ∈ m.cellPaths)
+    (hmiss : dirs.lookup (String.fromUTF8! ⟨p.toArray⟩) = none) :
+    (tastePlt header limit dirs cH cS).1 = false :=
+  Taste.missing_dir_rejected header limit dirs cH cS m hm p hp hmiss
 
 /-- a last entry's layout fixes the file length: truncating or extending the file by any number of
     bytes breaks `Layout` (the conjunct the walk checks with `bf.seek(0, 2)`) -/
